@@ -19,6 +19,7 @@ import (
 	cidprimary "github.com/ipld/go-storethehash/store/primary/cid"
 	mhprimary "github.com/ipld/go-storethehash/store/primary/multihash"
 	"github.com/ipld/go-storethehash/store/types"
+	"github.com/ipld/go-storethehash/store/vhook"
 )
 
 var log = logging.Logger("storethehash")
@@ -289,15 +290,18 @@ func (s *Store) Close() error {
 		<-s.closed
 	}
 
+	vhook.Point("close.stoppedFlusher")
 	cerr := s.Err()
 
 	err := s.index.Close()
 	if err != nil {
 		cerr = err
 	}
+	vhook.Point("close.afterIndexClose")
 	if err = s.index.Primary.Close(); err != nil {
 		cerr = err
 	}
+	vhook.Point("close.afterPrimaryClose")
 	s.fileCache.Clear()
 	if err = s.freelist.Close(); err != nil {
 		cerr = err
@@ -320,6 +324,7 @@ func (s *Store) Get(key []byte) ([]byte, bool, error) {
 	if err != nil {
 		return nil, false, err
 	}
+	vhook.Point("get.afterIdxGet")
 	if !found {
 		return nil, false, nil
 	}
@@ -363,6 +368,7 @@ func (s *Store) Put(key []byte, value []byte) error {
 	if err != nil {
 		return err
 	}
+	vhook.Point("put.afterIdxGet")
 	// If found, get the key and value stored in primary to see if it is the
 	// same (index only stores prefixes).
 	var storedKey []byte
@@ -400,6 +406,7 @@ func (s *Store) Put(key []byte, value []byte) error {
 	if err != nil {
 		return err
 	}
+	vhook.Point("put.afterPriPut")
 
 	// If the key being set is not found, or the stored key is not equal
 	// (even if same prefix is shared @index), we put the key without updates
@@ -407,6 +414,7 @@ func (s *Store) Put(key []byte, value []byte) error {
 		if err = s.index.Put(indexKey, fileOffset); err != nil {
 			return err
 		}
+		vhook.Point("put.afterIdxPut")
 	} else {
 		// If the key exists and the one stored is the one we are trying
 		// to put this is an update.
@@ -414,10 +422,12 @@ func (s *Store) Put(key []byte, value []byte) error {
 		if err = s.index.Update(indexKey, fileOffset); err != nil {
 			return err
 		}
+		vhook.Point("put.afterIdxUpdate")
 		// Add outdated data in primary storage to freelist
 		if err = s.freelist.Put(prevOffset); err != nil {
 			return err
 		}
+		vhook.Point("put.afterFlPut")
 	}
 
 	s.flushTick()
@@ -441,6 +451,7 @@ func (s *Store) Remove(key []byte) (bool, error) {
 	if err != nil {
 		return false, err
 	}
+	vhook.Point("rem.afterIdxGet")
 
 	// If not found it means there's nothing to remove.
 	// Return false with no error
@@ -463,6 +474,7 @@ func (s *Store) Remove(key []byte) (bool, error) {
 	if err != nil {
 		return false, err
 	}
+	vhook.Point("rem.afterIdxRemove")
 	if removed {
 		// Mark slot in freelist
 		err = s.freelist.Put(offset)
@@ -482,6 +494,7 @@ func (s *Store) SetFileCacheSize(size int) {
 func (s *Store) getPrimaryKeyData(blk types.Block, indexKey []byte) ([]byte, []byte, error) {
 	// Get the key and value stored in primary to see if it is the same (index
 	// only stores prefixes).
+	vhook.Point("priget.before")
 	storedKey, storedValue, err := s.index.Primary.Get(blk)
 	if err != nil {
 		// Log the error reading the primary, since no error is returned if the
@@ -528,6 +541,7 @@ func (s *Store) flushTick() {
 	flushRate := s.flushRate
 	lastFlush := s.lastFlush
 	s.rateLk.Unlock()
+	vhook.Point("tick.afterRate")
 
 	if flushRate == 0 {
 		// Do not know the flush rate yet.
@@ -551,6 +565,7 @@ func (s *Store) flushTick() {
 	// to come in and be stored in memory faster that flushes could handle it,
 	// leading to memory exhaustion.
 	if inRate > flushRate {
+		vhook.Point("tick.decided")
 		// Get a channel that broadcasts next flush completion.
 		s.rateLk.Lock()
 		if s.flushNotice == nil {
@@ -558,6 +573,7 @@ func (s *Store) flushTick() {
 		}
 		flushNotice := s.flushNotice
 		s.rateLk.Unlock()
+		vhook.Point("tick.registered")
 
 		// Trigger flush now, non-blocking.
 		select {
@@ -568,8 +584,10 @@ func (s *Store) flushTick() {
 			// since the existing unread signal guarantees the a flush.
 		}
 
+		vhook.Point("tick.signaled")
 		// Wait for next flush to complete.
 		<-flushNotice
+		vhook.Point("tick.released")
 	}
 }
 
@@ -578,10 +596,12 @@ func (s *Store) commit() (types.Work, error) {
 	if err != nil {
 		return 0, err
 	}
+	vhook.Point("commit.afterPrimary")
 	indexWork, err := s.index.Flush()
 	if err != nil {
 		return 0, err
 	}
+	vhook.Point("commit.afterIndex")
 	flWork, err := s.freelist.Flush()
 	if err != nil {
 		return 0, err
@@ -613,15 +633,18 @@ func (s *Store) Flush() error {
 	s.rateLk.Lock()
 	s.lastFlush = lastFlush
 	s.rateLk.Unlock()
+	vhook.Point("flush.stamped")
 
 	if !s.outstandingWork() {
 		return nil
 	}
 
+	vhook.Point("flush.checked")
 	work, err := s.commit()
 	if err != nil {
 		return err
 	}
+	vhook.Point("flush.committed")
 
 	var rate float64
 	if work > types.Work(s.burstRate) {
@@ -639,6 +662,7 @@ func (s *Store) Flush() error {
 		s.flushNotice = nil
 	}
 	s.rateLk.Unlock()
+	vhook.Point("flush.notified")
 
 	return nil
 }
